@@ -334,7 +334,13 @@ class Model:
             elif isinstance(st, ast.Assign):
                 for t in st.targets:
                     for n in _target_names(t):
+                        if isinstance(st.value, ast.Name) and st.value.id in ci.methods and isinstance(t, ast.Name):
+                            # class-body alias of a method defined above: `render_x = render_y`
+                            ci.methods[n] = ci.methods[st.value.id]
+                            ci.attrs.pop(n, None)
+                            continue
                         ci.attrs.setdefault(n, []).append(st.value)
+                        ci.methods.pop(n, None)
             elif isinstance(st, ast.AnnAssign) and st.value is not None:
                 for n in _target_names(st.target):
                     ci.attrs.setdefault(n, []).append(st.value)
